@@ -1496,6 +1496,29 @@ def _build():
                 p["emit_default_doc"] = True
             f = dict(f, pattern=p)
         out.append(f)
+    # the indented-NumPy root cause does not depend on which type was written: one pattern per observed kind instead of one per type string
+    gen, rest = {}, []
+    for f in out:
+        p = f["pattern"]
+        if "R-indented-numpydoc-unparsed" in f["what"] and p.get("field") == "typ":
+            q = dict(check=p["check"], fmt="function", style="numpydoc", type_annotations=False, field="typ", observed=p["observed"])
+            gen.setdefault(p["observed"], dict(f, id="C02-function-numpydoc-typ-%s" % p["observed"].lower(), pattern=q))
+        else:
+            rest.append(f)
+    out = rest + list(gen.values())
+    out.append(dict(
+        id="C02-string-default-cut-at-full-stop", property="C02",
+        pattern=dict(check="format_roundtrip", dot_in_default=True, emit_default_doc=True, field={"in": ["parse", "default", "doc"]},
+                     observed={"in": ["raises SyntaxError", "str", "suffix_added"]}),
+        what="[R-default-cut-at-dot] as C01-string-default-cut-at-full-stop: with emit_default_doc the prose default is read back, cut at the first '.' ('a.b' -> '\"a', rest left in the "
+             "description), or the parser raises SyntaxError on the unterminated string",
+        site="cdd/shared/defaults_utils.py:extract_default",
+        example="{'alpha': {'typ': 'str', 'doc': 'the value', 'default': 'a.b'}} through class/pydantic/function with emit_default_doc=True"))
+    out.append(dict(
+        id="C02-double-quote-in-string-default-not-escaped", property="C02",
+        pattern=dict(check="format_roundtrip", quote_in_default=True, emit_default_doc=True, field="parse", observed="raises SyntaxError"),
+        what="[R-default-quote] as C01-double-quote-in-string-default-not-escaped: the prose default \"say \"hi\"\" makes the parser raise SyntaxError (class/pydantic/function with emit_default_doc)",
+        site="cdd/shared/pure_utils.py:quote / cdd/shared/defaults_utils.py", example="{'alpha': {'typ': 'str', 'default': 'say \"hi\"'}} with emit_default_doc=True"))
     return out
 
 
